@@ -81,6 +81,12 @@ def do_call(fr, n):
                 return call_function(fr, q, args, kw, extra, n)
             return external(fr, r[1], args, kw, extra, n)
         return builtin(fr, name, n)
+    if isinstance(f, ast.Attribute) and isinstance(f.value, ast.Name) and f.value.id == 'dict' and f.attr == 'fromkeys' and 'dict' not in fr.env:
+        args = args_of(fr, n)
+        keys = T.strip_nd(args[0]) if args else None
+        if keys is not None and keys[0] in ('list', 'tuple') and all(T.isconst(k_) for k_ in keys[1]) and len(args) <= 2:
+            val = args[1] if len(args) == 2 else NONE          # dict.fromkeys(keys[, value]): every key maps to the same value (None by default)
+            return ('dict', tuple(sorted(((k_[1], val) for k_ in keys[1]), key=lambda kv: repr(kv[0]))))
     # ---- attribute calls
     if isinstance(f, ast.Attribute):
         # super().__init__(...)
